@@ -59,8 +59,8 @@ type Stats struct {
 
 func NewStats() *Stats { return &Stats{Faults: map[string]int64{}, Probes: map[string]int64{}} }
 
-func (s *Stats) Fault(k string)          { s.Faults[k]++ }
-func (s *Stats) Probe(k string)          { s.Probes[k]++ }
+func (s *Stats) Fault(k string)           { s.Faults[k]++ }
+func (s *Stats) Probe(k string)           { s.Probes[k]++ }
 func (s *Stats) ProbeN(k string, n int64) { s.Probes[k] += n }
 
 func (s *Stats) Merge(o *Stats) {
